@@ -380,6 +380,139 @@ func topNOK(ps []pilosa.Pair, n int, tot map[uint64]uint64, sure []int) string {
 	return ""
 }
 
+// sparse loads the dataset's integer values into an index that holds nothing but the int field
+// (no existence tracking, no set field: every shard exists only through a view that is not
+// "standard"), and the columns of Row(f=1) into an index that holds nothing but a time field
+// without standard view; it queries them from the coordinator (no arrival order is forced: which
+// shards a coordinator knows of is the point) and deletes the indexes.
+func (e *sysEnv) sparse(sc *sysCluster, data []dataCol, nshards int, owner []int, base map[uint64]int, m *test.Command,
+	expect map[string]interface{}, p redParams, res *behav.Result) (fails []sysFail, err error) {
+	ctx := context.Background()
+	api := sc.c[0].API
+	defer hasher.set(base)
+	newIndex := func(prefix string) (string, error) {
+		for {
+			name := fmt.Sprintf("%s%dx%d", prefix, sc.nextIdx, sc.key.n*10+sc.key.replicas)
+			sc.nextIdx++
+			t2 := map[uint64]int{}
+			for k, v := range base {
+				t2[k] = v
+			}
+			ok := true
+			for s := 0; s < nshards && ok; s++ {
+				pp := uint64(api.VerifReducePartition(name, uint64(s)))
+				if _, used := t2[pp]; used {
+					ok = false
+				}
+				t2[pp] = owner[s]
+			}
+			if !ok {
+				continue
+			}
+			hasher.set(t2)
+			_, err := api.CreateIndex(ctx, name, pilosa.IndexOptions{})
+			return name, err
+		}
+	}
+	fail := func(q, format string, a ...interface{}) {
+		fails = append(fails, sysFail{q, "wrong_result", fmt.Sprintf(format, a...)})
+	}
+	run := func(index, name, pql string) (interface{}, bool) {
+		r, err := query(m, index, pql)
+		if res != nil {
+			res.Cover("query/" + name)
+		}
+		if err != nil || len(r) != 1 {
+			fails = append(fails, sysFail{name, "error", fmt.Sprintf("%s: error %v", pql, err)})
+			return nil, false
+		}
+		return r[0], true
+	}
+	// ---- nothing but an integer field
+	name, err := newIndex("o")
+	if err != nil {
+		return nil, err
+	}
+	if _, err := api.CreateField(ctx, name, "v", pilosa.OptFieldTypeInt(-10, 100)); err != nil {
+		return nil, err
+	}
+	var sb strings.Builder
+	var withVal []uint64
+	for _, d := range data {
+		if d.V != noVal {
+			fmt.Fprintf(&sb, "Set(%d, v=%d) ", colOf(d.Col, e.colsPer), d.V)
+			withVal = append(withVal, colOf(d.Col, e.colsPer))
+		}
+	}
+	if sb.Len() > 0 {
+		if _, err := query(sc.c[0], name, sb.String()); err != nil {
+			return nil, err
+		}
+	}
+	for _, q := range []struct{ kind, pql string }{{"Sum", "Sum(field=v)"}, {"Min", "Min(field=v)"}, {"Max", "Max(field=v)"}} {
+		if r, ok := run(name, "IntOnly"+q.kind, q.pql); ok {
+			vc, _ := r.(pilosa.ValCount)
+			if got, want := canonVC(vc), specCanon(q.kind, expect[q.kind], p); got != want {
+				fail("IntOnly"+q.kind, "index holding only an int field: %s = %s, expected %s", q.pql, got, want)
+			}
+		}
+	}
+	if r, ok := run(name, "IntOnlyRow", "Row(v > -10)"); ok {
+		row, _ := r.(*pilosa.Row)
+		var cols []uint64
+		if row != nil {
+			cols = row.Columns()
+		}
+		if got, want := canonCols(cols, e.colsPer), canonCols(withVal, e.colsPer); got != want {
+			fail("IntOnlyRow", "index holding only an int field: Row(v > -10) = %s, expected %s", got, want)
+		}
+	}
+	if err := api.DeleteIndex(ctx, name); err != nil {
+		return fails, err
+	}
+	// ---- nothing but a time field without standard view
+	name, err = newIndex("p")
+	if err != nil {
+		return fails, err
+	}
+	if _, err := api.CreateField(ctx, name, "tn", pilosa.OptFieldTypeTime(pilosa.TimeQuantum("YMD"), true)); err != nil {
+		return fails, err
+	}
+	sb.Reset()
+	for _, d := range data {
+		for _, r := range d.F {
+			if r == 1 {
+				fmt.Fprintf(&sb, "Set(%d, tn=1, 2019-03-04T05:00) ", colOf(d.Col, e.colsPer))
+			}
+		}
+	}
+	if sb.Len() > 0 {
+		if _, err := query(sc.c[0], name, sb.String()); err != nil {
+			return fails, err
+		}
+	}
+	if r, ok := run(name, "TimeOnlyRow", "Row(tn=1, from='2019-01-01T00:00', to='2020-01-01T00:00')"); ok {
+		row, _ := r.(*pilosa.Row)
+		var cols []uint64
+		if row != nil {
+			cols = row.Columns()
+		}
+		if got, want := canonCols(cols, e.colsPer), specCanon("Row", expect["Row"], p); got != want {
+			fail("TimeOnlyRow", "index holding only a noStandardView time field: Row(tn=1, from, to) = %s, expected %s", got, want)
+		}
+	}
+	if r, ok := run(name, "TimeOnlyCount", "Count(Row(tn=1, from='2019-01-01T00:00', to='2020-01-01T00:00'))"); ok {
+		cnt, _ := r.(uint64)
+		if got, want := fmt.Sprintf("n%d", cnt), specCanon("Count", expect["Count"], p); got != want {
+			fail("TimeOnlyCount", "index holding only a noStandardView time field: Count(Row(tn=1, from, to)) = %s, expected %s", got, want)
+		}
+	}
+	if err := api.DeleteIndex(ctx, name); err != nil {
+		return fails, err
+	}
+	return fails, nil
+}
+
 // ---- one case --------------------------------------------------------------------
 
 type sysCase struct {
@@ -474,6 +607,15 @@ func (e *sysEnv) runSystem(c *sysCase, res *behav.Result) (fails []sysFail, inco
 				return nil, fmt.Sprintf("placement not realised: shard %d nodes %v err %v want node%d", s, nodes, err, owner[s])
 			}
 		}
+	}
+	// data that lives only in views other than "standard" (fewer replicas than nodes: a node learns of
+	// the other nodes' shards only through their announcements)
+	if replicas < n {
+		sf, err := e.sparse(sc, data, nshards, owner, tab, sc.c[coord], expect, redParams{Lim: lim, G: c.G, ColsPer: c.ColsPer}, res)
+		if err != nil {
+			return nil, "setup (sparse index): " + err.Error()
+		}
+		fails = append(fails, sf...)
 	}
 	var remoteIDs []string
 	for _, r := range remote {
